@@ -36,6 +36,9 @@ def text_of(tokens) -> str:
     return "".join(out)
 
 
+SECOND = 1 << 28      # record ids of the second (reverse-order) pass
+
+
 def observe(dh, rid: int, enc: bytes) -> Dict[str, Any]:
     from sc62015.pysc62015.instr import decode, OPCODES
     from sc62015.pysc62015.sc_asm import Assembler
@@ -91,6 +94,24 @@ def _job(arg):
     import decode_harness as dh
     dh._setup()
     recs = [observe(dh, rid, enc) for rid, enc in items]
+    # second pass in reverse order: what the assembler makes of a text must not depend on what it (or another Assembler object in
+    # the process) assembled before.  Texts whose bytes changed are observed again - in the state the process is in now - and go
+    # to the judge like any other record (id + SECOND).
+    from sc62015.pysc62015.sc_asm import Assembler
+    first = {r["id"]: r for r in recs}
+    again = []
+    for rid, enc in reversed(items):
+        r = first[rid]
+        if not r["text"]:
+            continue
+        try:
+            b2 = bytes(Assembler().assemble(r["text"]).as_binary())
+        except Exception:      # noqa: BLE001
+            b2 = None
+        was = bytes(r["b2"][: r["n2"]]) if r["ok"] else None
+        if b2 != was:
+            again.append(observe(dh, rid + SECOND, enc))
+    recs += again
     v = judge(shard_id, recs)
     byid = {r["id"]: r for r in recs}
     bad = []
@@ -120,6 +141,8 @@ def _job(arg):
             tg.append("prefix-added")
         if r["ok"] and len(b2) - (1 if b2[0] in c04.PRE_SET else 0) < len(enc) - (1 if pre else 0):      # the instruction body lost a byte
             tg.append("shorter")
+        if r["id"] >= SECOND:
+            tg.append("second-pass")
         bad.append((str(x[1]), f"op{op:02X}:" + ",".join(tg), {"kind": "asm", "bytes": b[: r["n"]]}, r["text"], b2.hex(), r.get("text2", ""), r["err"]))
     return len(recs), bad[:6000], len(bad), len(v[3])
 
@@ -164,8 +187,16 @@ def run(cr: CheckRun) -> None:
     cr.mark("model")
     encs = encodings(en, cr.tier, cr.seed)
     items = [(i + 1, e) for i, e in enumerate(encs)]
+    # shards hold encodings that share their operand bytes (same register / register-pair / mode selector under different
+    # opcodes): state shared between instructions with the same operands is exercised inside one process, in both orders
     nsh = vlib.NCPU * 2
-    results = vlib.pmap(_job, [(i, items[i::nsh]) for i in range(nsh)])
+    def sel(e):
+        k = 1 if e[0] in c04.PRE_SET else 0
+        return e[k + 1] if len(e) > k + 1 else 0
+    buckets: Dict[int, List[Any]] = {}
+    for it in items:
+        buckets.setdefault(sel(it[1]) % nsh, []).append(it)
+    results = vlib.pmap(_job, [(i, buckets.get(i, [])) for i in range(nsh) if buckets.get(i)])
     cr.mark("roundtrips")
     n = sum(r[0] for r in results)
     for r in results:
